@@ -353,11 +353,24 @@ const SNIPPETS: [&str; 34] = [
     "// c\n", "/* c */", "%on A %enter B",
 ];
 
+const DECLARATIONS: [&str; 10] = [
+    "%t_type crate::T\n",
+    "%user_type X = crate::X\n",
+    "%nt_type S = crate::S\n",
+    "%start S\n",
+    "%title \"t\"\n",
+    "%comment \"c\"\n",
+    "%grammar_type 'LALR(1)'\n",
+    "%line_comment \"#\"\n",
+    "%block_comment \"(*\" \"*)\"\n",
+    "%scanner X { %auto_newline_off }\n",
+];
+
 fn mutate(text: &str, rng: &mut Rng) -> (String, String) {
     let mut cs: Vec<char> = text.chars().collect();
     let mut label = String::new();
     for _ in 0..rng.range(1, 3) {
-        let kind = rng.below(9);
+        let kind = rng.below(10);
         label.push_str(&format!("m{kind}"));
         match kind {
             0 => {
@@ -418,6 +431,15 @@ fn mutate(text: &str, rng: &mut Rng) -> (String, String) {
                 let c = if rng.chance(1, 2) { "\n// trailing\n" } else { " /* trailing */" };
                 cs.extend(c.chars());
             }
+            8 => {
+                // one more declaration at the start of a random line (duplicates what may already be there)
+                let starts: Vec<usize> = std::iter::once(0)
+                    .chain((0..cs.len()).filter(|&i| cs[i] == '\n').map(|i| i + 1))
+                    .collect();
+                let at = *rng.pick(&starts);
+                let d: Vec<char> = rng.pick(&DECLARATIONS).chars().collect();
+                cs.splice(at..at, d);
+            }
             _ => {
                 // swap two neighbouring lines
                 let s: String = cs.iter().collect();
@@ -451,6 +473,7 @@ fn handwritten() -> Vec<(String, String)> {
         ("hw/only-prolog", "%start S\n%title \"t\"\n"),
         ("hw/garbage", "%%%% ;;; ::: \"unterminated\n'x"),
         ("hw/bom", "\u{feff}%start S\n%%\nS: \"a\";\n"),
+        ("hw/two-t-type", "%start S\n%t_type crate::T\n%t_type crate::U\n%%\nS: \"a\";\n"),
         ("hw/lalr", "%start S\n%grammar_type 'LALR(1)'\n%%\nS: S \"a\" | ;\n"),
     ];
     v.into_iter().map(|(a, b)| (a.to_string(), b.to_string())).collect()
